@@ -184,6 +184,7 @@ def block_thermal_holstein(ctx, ht):
                dict(kind="ps", solver="krylov"), dict(kind="ps2", solver="krylov"),
                dict(kind="pc", adaptive=True, adaptive_rtol=1e-6, guess_dt=0.05),
                dict(kind="muvmf", ivp_rtol=1e-7, ivp_atol=1e-9, force_ovlp=True, reg_epsilon=1e-10)]
+    explicit_sector = bool(rng.random() < 0.5)
     for ex in (False, True):
         P = np.diag(ht.sector(1 if ex else 0).astype(float))
         # beta over two decades (in units of the spectral width)
@@ -193,8 +194,22 @@ def block_thermal_holstein(ctx, ht):
         nsteps = int(rng.integers(1, 5)) if spec.get("adaptive") or spec["kind"] in ("muvmf",) else int(rng.integers(4, 9))
         if spec["kind"] in ("ps", "ps2", "muvmf"):
             nsteps = max(nsteps, 6)
+        # half of the cases: the ensemble Hamiltonian is passed explicitly (`h_mpo_model`) and the initial density operator
+        # was built from ANOTHER model with the same local bases (other energies, couplings and displacements)
+        explicit = ex == explicit_sector
+        if explicit and spec["kind"] in ("ps", "ps2", "muvmf"):
+            spec = schemes[int(rng.integers(0, 3))]
+            nm = name_of(spec)
+            nsteps = int(rng.integers(4, 9))
+        src = ht
+        if explicit:
+            mols2 = [dict(elocalex=float(np.round(m["elocalex"] + rng.uniform(0.5, 1.5), 3)),
+                          modes=[(float(np.round(w * rng.uniform(1.3, 1.8), 3)), float(np.round(-d * rng.uniform(1.2, 1.6), 3)), nb)
+                                 for (w, d, nb) in m["modes"]]) for m in ht.mols]
+            src = L.HolsteinTiny(mols2, -1.5 * ht.jmat, ht.scheme)
+            nm = nm + ":explicit-h_mpo_model"
         try:
-            init = MpDm.max_entangled_ex(ht.model) if ex else MpDm.max_entangled_gs(ht.model)
+            init = MpDm.max_entangled_ex(src.model) if ex else MpDm.max_entangled_gs(src.model)
             D0 = dense_state(init)
             if not np.linalg.norm(D0 - P / np.linalg.norm(P)) <= 1e-12:
                 run.violation(f"MpDm.max_entangled_{'ex' if ex else 'gs'}:not-sector-identity",
@@ -206,11 +221,14 @@ def block_thermal_holstein(ctx, ht):
                 run.count("thermal:gs:tdvp:manual-expand")
                 init = init.expand_bond_dimension(Mpo(ht.model), include_ex=False)
                 tp = ThermalProp(init, evolve_config=make_cfg(spec, imag=True), auto_expand=False)
+            elif explicit:
+                tp = ThermalProp(init, h_mpo_model=ht.model, evolve_config=make_cfg(spec, imag=True))
             else:
                 tp = ThermalProp(init, evolve_config=make_cfg(spec, imag=True))
             tp.evolve(evolve_dt=-1j * beta / 2 / nsteps, nsteps=nsteps)
         except Exception as e:
-            run.violation(f"ThermalProp:{nm}:exception:{exc_sig(e)}", dict(model=ht.describe(), scheme=spec, ex=ex, beta=beta, error=repr(e)))
+            run.violation(f"ThermalProp:{nm}:exception:{exc_sig(e)}", dict(model=ht.describe(), scheme=spec, ex=ex, beta=beta, error=repr(e),
+                                                                          initial_state_model=src.describe() if explicit else "same"))
             continue
         ctx.evald(("thermal", ht.scheme, ex, nm, round(np.log10(beta * nh))))
         run.count(f"thermal:{'ex' if ex else 'gs'}:{nm}:scheme{ht.scheme}")
@@ -236,9 +254,9 @@ def block_thermal_holstein(ctx, ht):
         ref = ref / np.linalg.norm(ref)
         dfin = float(np.linalg.norm(fin - ref))
         if not (worst <= tol and dfin <= 5 * tol):
-            run.violation(f"ThermalProp:{'ex' if ex else 'gs'}:{nm.split(':')[0]}:gibbs-average",
+            run.violation(f"ThermalProp:{'ex' if ex else 'gs'}:{nm.split(':')[0]}:{'explicit-h_mpo_model:' if explicit else ''}gibbs-average",
                           dict(model=ht.describe(), scheme=spec, ex=ex, beta=beta, nsteps=nsteps, worst=worst, final_state_error=dfin,
-                               tol=tol, detail=detail))
+                               tol=tol, detail=detail, initial_state_model=src.describe() if explicit else "same"))
 
 
 @timed
@@ -488,6 +506,13 @@ def search(run, rng, quick):
             block_evolve_exact(ctx, ht)
             block_thermal_exact(ctx, ht)
             block_thermal_holstein(ctx, ht)
+        # ---- closed-form propagator only (cheap): many more models, including coincident / mirrored modes
+        for k in range(10 if quick else 40):
+            ht = L.gen_holstein(rng, scheme=int(schemes[k % 4]), coincide=1.0 if k % 2 else None)
+            coinc = len({(w, abs(d), nb) for m in ht.mols for (w, d, nb) in m["modes"]}) < sum(len(m["modes"]) for m in ht.mols)
+            run.count(f"holstein-closed-form:scheme{ht.scheme}:{'coincident-modes' if coinc else 'distinct-modes'}")
+            block_propagator(ctx, ht)
+            block_thermal_exact(ctx, ht)
         if ctx.left() < 0:
             run.count("budget-exhausted")
             break
